@@ -42,31 +42,34 @@ theorem HaltW.plain : HaltW p .plain := fun _ _ e => by cases e
 Turing jump to the handler that is *not* taken needs to know the future: either the handler is a
 `halt`, or no state in which the whole list can end halts), or it is at the level of the you
 function: then the states in which the whole list can end never halt, because a Turing jump looks at
-the whole future, and programs with a `try/stop` have the words `try_fp` and `defeat` behind the
-entry frame. -/
-def Safe (p : Prog) (B dA ra : Nat) (lp : Jt) (md : Md) (st : Bool) (fns : List FDecl) (Γ : Gam) (env' : Env) (F D o pcEnd : Nat) (m : Mem) (res : Res) (s : S) : Prop :=
-  (md ≠ .you ∧ (lp.vd = true → ∃ v, md = .stop dA v) ∧ noTry s = true ∧
+the whole future, and programs with a `try/stop` or a defeat function have the words `try_fp` and `defeat`
+behind the entry frame, `defeat` holding the address of a `halt` between `try` blocks.  `dc`: the list is in a
+defeat context (it may call defeat functions). -/
+def Safe (p : Prog) (B dA ra : Nat) (lp : Jt) (md : Md) (st dc : Bool) (fns : List FDecl) (Γ : Gam) (env' : Env) (F D o pcEnd : Nat) (m : Mem) (res : Res) (s : S) : Prop :=
+  (md.isYou = false ∧
+      ((lp.vd = true → ∃ v, md = .stop dA v) ∧ (dc = true → (∃ v, md = .stop dA v) ∨ ∀ fd ∈ fns, fd.dfn = false)) ∧
+      noTry s = true ∧
       (HaltW p md ∨ (lp.vd = true ∧ ∀ st', Post p B ra lp md Γ env' F D o pcEnd m res st' → ¬ Halts (sphinx p) st'))) ∨
-    (md = .you ∧ lp.vd = false ∧ youLevel st fns s = true ∧
-      (st = true → dA = F + p.w ∧ F + 2 * p.w ≤ m.size ∧ F + 2 * p.w < 256 ^ p.w) ∧
+    ((md.isYou = true ∧ dc = false ∧ (st = false → ∀ fd ∈ fns, fd.dfn = false)) ∧ lp.vd = false ∧ youLevel st fns s = true ∧
+      (st = true → dA = F + p.w ∧ F + 2 * p.w ≤ m.size ∧ F + 2 * p.w < 256 ^ p.w ∧ md = .you (some (dA, B + off_halt))) ∧
       ∀ st', Post p B ra lp md Γ env' F D o pcEnd m res st' → ¬ Halts (sphinx p) st')
 
-theorem Safe.sub' {lp : Jt} {md : Md} {st : Bool} {Γ Γ' : Gam} {env' : Env} {F D ra o o' e e' : Nat} {m m1 : Mem} {res : Res} {s k : S}
-    (h : Safe p B dA ra lp md st fns Γ env' F D o e m res s)
+theorem Safe.sub' {lp : Jt} {md : Md} {st dc : Bool} {Γ Γ' : Gam} {env' : Env} {F D ra o o' e e' : Nat} {m m1 : Mem} {res : Res} {s k : S}
+    (h : Safe p B dA ra lp md st dc fns Γ env' F D o e m res s)
     (hnt : noTry s = true → noTry k = true) (hyl : youLevel st fns s = true → youLevel st fns k = true)
     (km : Keep p.w m m1 (md.kb F p.w))
     (conv : ∀ st', Post p B ra lp md Γ' env' F D o' e' m res st' → Post p B ra lp md Γ env' F D o e m res st') :
-    Safe p B dA ra lp md st fns Γ' env' F D o' e' m1 res k := by
+    Safe p B dA ra lp md st dc fns Γ' env' F D o' e' m1 res k := by
   rcases h with ⟨hm, hv, h, hw⟩ | ⟨hm, hv, h1, hst, h2⟩
   · exact Or.inl ⟨hm, hv, hnt h, hw.imp id (fun hf => ⟨hf.1, fun st' hp => hf.2 st' (conv st' (hp.rebase km))⟩)⟩
   · exact Or.inr ⟨hm, hv, hyl h1, fun e => by rw [km.size]; exact hst e, fun st' hp => h2 st' (conv st' (hp.rebase km))⟩
 
-theorem Safe.sub {lp : Jt} {md : Md} {st : Bool} {Γ Γ' : Gam} {env' : Env} {F D ra o o' e e' : Nat} {m m1 : Mem} {res : Res} {s k : S}
-    (h : Safe p B dA ra lp md st fns Γ env' F D o e m res s)
+theorem Safe.sub {lp : Jt} {md : Md} {st dc : Bool} {Γ Γ' : Gam} {env' : Env} {F D ra o o' e e' : Nat} {m m1 : Mem} {res : Res} {s k : S}
+    (h : Safe p B dA ra lp md st dc fns Γ env' F D o e m res s)
     (hnt : noTry s = true → noTry k = true) (hyl : youLevel st fns s = true → youLevel st fns k = true)
     (km : Keep p.w m m1 F)
     (conv : ∀ st', Post p B ra lp md Γ' env' F D o' e' m res st' → Post p B ra lp md Γ env' F D o e m res st') :
-    Safe p B dA ra lp md st fns Γ' env' F D o' e' m1 res k := h.sub' hnt hyl km.kb conv
+    Safe p B dA ra lp md st dc fns Γ' env' F D o' e' m1 res k := h.sub' hnt hyl km.kb conv
 
 /-- what `cS_ok` concludes: a defeat halts the machine, except inside a `try/stop` body, where it
 leaves it at the handler -/
@@ -92,9 +95,10 @@ theorem Concl.pre {lp : Jt} {md : Md} {Γ Γ' : Gam} {env' : Env} {F D ra o o' p
     (conv : ∀ st', Post p B ra lp md Γ' env' F D o' e' m res st' → Post p B ra lp md Γ env' F D o e m res st') :
     Concl p B ra lp md Γ env' F D o pc e m (tr0 ++ tr) res := Concl.pre' r km.kb h conv
 
-theorem Concl.toYou {lp : Jt} {Γ : Gam} {env' : Env} {F D ra o pc e : Nat} {m : Mem} {tr : List Ev} {res : Res}
-    (h : Concl p B ra lp .plain Γ env' F D o pc e m tr res) : Concl p B ra lp .you Γ env' F D o pc e m tr res :=
-  ⟨h.1, fun hn => by obtain ⟨st', r, hp⟩ := h.2 hn; exact ⟨st', r, hp.toYou⟩⟩
+theorem Concl.toYou {lp : Jt} {md1 : Md} {w : Option (Nat × Nat)} {Γ : Gam} {env' : Env} {F D ra o pc e : Nat} {m : Mem} {tr : List Ev} {res : Res}
+    (hkb : md1.kb F p.w = F) (hd : DReg p (.you w) m F) (hres : res ≠ .defeat)
+    (h : Concl p B ra lp md1 Γ env' F D o pc e m tr res) : Concl p B ra lp (.you w) Γ env' F D o pc e m tr res :=
+  ⟨fun hdf => absurd hdf hres, fun _ => by obtain ⟨st', r, hp⟩ := h.2 (nd hres); exact ⟨st', r, hp.toYou hkb hd hres⟩⟩
 
 theorem post_conv {lp : Jt} {md : Md} {Γ : Gam} {env' : Env} {F D ra o e e' : Nat} {m : Mem} {res : Res} (he : e' = e) :
     ∀ st', Post p B ra lp md Γ env' F D o e' m res st' → Post p B ra lp md Γ env' F D o e m res st' := by
@@ -102,14 +106,14 @@ theorem post_conv {lp : Jt} {md : Md} {Γ : Gam} {env' : Env} {F D ra o e e' : N
 
 /-- the statement of `cS_ok` for runs of the source semantics with fuel `fuel` -/
 def StmtOK (p : Prog) (ck : Bool) (B dA : Nat) (fa : FAddr) (fns : List FDecl) (fuel : Nat) : Prop :=
-    ∀ (F D ra : Nat) (hra : ra < 256 ^ p.w) (lp : Jt) (hlp : lp.cont < 256 ^ p.w ∧ lp.brk < 256 ^ p.w) (md : Md) (sb : Bool)
+    ∀ (F D ra : Nat) (hra : ra < 256 ^ p.w) (lp : Jt) (hlp : lp.cont < 256 ^ p.w ∧ lp.brk < 256 ^ p.w) (md : Md) (sb dc : Bool)
       (s : S) (Γ : Gam) (env : Env) (pc o : Nat) (m : Mem) (env' : Env) (tr : List Ev) (res : Res),
       PlacedAt p pc (cS (cxOf p ck B dA) fa lp Γ pc o s) →
       pc + (cS (cxOf p ck B dA) fa lp Γ pc o s).length ≤ B →
-      SInv p md Γ env m F D o ra → Disj p.w Γ → wfS fns lp.vd (Γ.map Prod.fst) s = true →
+      SInv p md Γ env m F D o ra → Disj p.w Γ → wfS fns dc (Γ.map Prod.fst) s = true →
       pkS p.w o s ≤ D → p.w ≤ o →
       exec (256 ^ p.w) (8 * p.w) fns p.w fuel D o env s = some (env', tr, res) → FaultOK ck fns p.w res →
-      Safe p B dA ra lp md sb fns Γ env' F D o (pc + (cS (cxOf p ck B dA) fa lp Γ pc o s).length) m res s →
+      Safe p B dA ra lp md sb dc fns Γ env' F D o (pc + (cS (cxOf p ck B dA) fa lp Γ pc o s).length) m res s →
       Concl p B ra lp md Γ env' F D o pc (pc + (cS (cxOf p ck B dA) fa lp Γ pc o s).length) m tr res
 
 end
